@@ -4,6 +4,9 @@
 // ---------------------------------------------------------------------------------------------
 use std::collections::HashSet;
 
+// the crate is only built for 64-bit targets in the suite; usize == u64 (listed assumption)
+global size_of usize == 8;
+
 // R6: integer intrinsics Verus has no specification for --------------------------------------
 pub trait U32Be: Sized {
     fn to_be_bytes_u32(self) -> [u8; 4];
